@@ -7,6 +7,10 @@ JSON-able events
     ['recv', r, [component, ...]]   sync Interest whose name is base_prefix + components (r = randbits value)
     ['pub', r]                      new_data()
     ['adv', dticks, r]              let dticks clock ticks pass (1 tick = 2**-18 s), firing the timer on the way
+    ['stop']                        stop()
+    ['start', r]                    start() again (r = randbits value of the first timer run)
+The instance is constructed, publishes cfg['k'] times BEFORE start() (each of these is a judged step as well), is started, and
+then the events follow; while it is not running only publications and clock moves happen (the handler is detached).
 
 After every micro-step (one handler call / one publication / one timer expiry / one quiet clock move, each
 followed by running the loop to quiescence) two things are checked:
@@ -24,7 +28,7 @@ import types
 from harness.lib import gen as G
 from harness.lib import vtloop
 
-RULE = ('histories of 15..60 events on a started SvsInst (sync_interval in {1.25,2.5,5,30} s, suppression_interval in '
+RULE = ('histories of 15..60 events on an SvsInst that is constructed, publishes, is started (and now and then stopped and started again) (sync_interval in {1.25,2.5,5,30} s, suppression_interval in '
         '{0.25,0.5,1,2} s, last_used_seq_num in {0,1,5,255,65535,2^32-1,2^32,2^63}, 0..2 publications before start): received vectors '
         'newer / older / equal / incomparable / subset / unknown-node / over-claiming / self-ok / duplicate ids / '
         'entries without name or without sequence number / byte-mutated / random bytes / wrong name length; '
@@ -40,7 +44,15 @@ RULE = ('histories of 15..60 events on a started SvsInst (sync_interval in {1.25
         '(library-encoded or hand-encoded), each followed by a timer expiry, a publication or a suppression window; an input vector '
         'the library encoder refuses is written by hand; after every step the timer task of the running instance must be alive '
         '(an exception that ended it is the observation), a steady expiry must emit exactly one sync Interest, new_data() must not '
-        'raise.  One case = one micro-step; non-trivial = it changed or read a '
+        'raise; life cycle: for every initial sequence number {0,1,7,255,65535,2^32-1,2^32,2^63,random < 2^64} x 0..3 publications before '
+        'start(): first timer run, honest vector (own node at the number the history gives it + one raised peer), publication, expiry, '
+        'stop(), 0..2 publications and clock moves while stopped, start() again, honest vector, expiry, publication, second stop / '
+        'publish / start round (also drawn inside random histories); the adapter only constructs: every publication -- before start, '
+        'running, after stop -- is judged by the publishing clause against the extracted spec_step HPublish (own number + 1, own entry, '
+        'RETURNED number, no exception; running: one prompt sync Interest; not running: none, and the first timer run after start() '
+        'announces it); after EVERY step the own number, the local vector and every emitted vector must equal the fold of the '
+        'extracted spec_step over the whole history from the constructor\'s number (acceptance judged with the spec\'s own number, '
+        'start() = own entry := own number).  One case = one micro-step; non-trivial = it changed or read a '
         'vector (accepted/rejected vector, publication, timer expiry); distinct by (state, event) hash')
 ASSUMPTIONS = [
     'time is counted in ticks of 2**-18 s; the float arithmetic of sample_sync_timer/sample_sup_timer is exact to far '
@@ -49,7 +61,9 @@ ASSUMPTIONS = [
     'the model starts from the decoded entries (or the class of decoding failure); the ORACLE takes the entries of a component '
     'of canonical layout (StateVec{Entry{Name{generic components}? SeqNo(1|2|4|8 bytes)?}*}, shortest-form numbers, exact '
     'lengths) from a 40-line strict reader in the harness instead, and reports a decoder that reads something else there',
-    'last_used_seq_num >= 0; start()/stop() lifecycle other than construct, publish*, start is not modelled',
+    'last_used_seq_num >= 0; life cycle: construct, publish*, start, events*, (stop, (publish | clock move)*, start, events*)*; '
+    'the loop runs to quiescence between stop() and the next start() (the old timer task has ended before the new one is '
+    'created); while the instance is not running no packet is delivered (the handler is detached)',
     'between events the loop runs to quiescence (DESIGN 2.6): a packet is never handled between new_data() and the '
     'timer task waking up',
 ]
@@ -109,13 +123,14 @@ class Env:
 
         self.inst = S.SvsInst(self.base, cfg['self'], on_missing, None, None,
                               sync_interval=cfg['I'], suppression_interval=cfg['S'], last_used_seq_num=cfg['last'])
-        for _ in range(cfg['k']):
-            self.inst.new_data()
+        self.App = App
+        # NB: constructed only.  Publications before start() and start() itself are steps of the Runner (judged like any other)
 
+    def start_inst(self):
         async def st():
-            self.inst.start(App())
+            self.inst.start(self.App())
         self.loop.run_until_complete(st())
-        # NB: the timer task has not run yet; the first settle (with the clock where it is) lets it fire.
+        # NB: the timer task has not run yet; the following settle (with the clock where it is) lets it run.
 
     def now_tick(self):
         return int(round(self.loop._vt / TICK))
@@ -331,12 +346,18 @@ class Runner:
         self.I = int(round(cfg['I'] / TICK))
         self.Sup = int(round(cfg['S'] / TICK))
         self.mcfg = [self.env.self_id, self.I, self.Sup]
-        self.mstate = ctx.call([1, self.mcfg, cfg['last'], cfg['k']])
+        self.mstate = ctx.call([4, cfg['last']])          # Model.construct: not started yet
+        self.running = False         # between start() and stop()
+        self.ever_started = False
+        self.pending_pub = False     # a publication made while not running has not been announced yet
+        self.spec = [[], cfg['last']]   # Spec.spec_run over the whole history so far: (local vector, own sequence number)
+        self.spec_bad = set()
         self.heard = None            # spec: Some vec (as list) while in a suppression window
         self.log = []                # concrete events executed so far
         self.found = []              # (site, cls) of oracle failures in this history
         self.broken = False
         self.nsteps = 0
+        self.running_step, self.announce_due = False, False
         self.timer_dead = False      # the timer task ended although the instance is running (reported once per history)
 
     # -- reporting ---------------------------------------------------------------------------------
@@ -358,9 +379,9 @@ class Runner:
         """kind: 'recv'|'pub'|'fire'|'idle'; action(): acts on the implementation; mevents: model events."""
         ctx, env = self.ctx, self.env
         before = env.snap()
-        raised = None
+        raised, ret = None, None
         try:
-            action()
+            ret = action()
         except Exception as e:   # noqa
             raised = e
         env.loop.settle()
@@ -381,7 +402,7 @@ class Runner:
             ctx.case((kind, 'diverged', repr(before['local']), repr(mevents)[:400]), True, None, f'{kind}:after-divergence')
 
         # ---- direct oracle on the implementation's observations -------------------------------------
-        self.oracle(kind, before, after, cbs, emitted, raised, wire)
+        self.oracle(kind, before, after, cbs, emitted, raised, wire, ret, mevents)
 
     def timer_alive(self, kind):
         """the timer task is what emits (periodically, at suppression expiry, promptly after a publication): once it has ended
@@ -406,6 +427,10 @@ class Runner:
         m_emit, m_cb, m_raise, tags = [], 0, False, []
         ms = self.mstate
         for ev in mevents:
+            if ev == ['start']:
+                ms = ctx.call([5, self.mcfg, ms])        # Model.start
+                tags.append(20)
+                continue
             ms, o = ctx.call([2, self.mcfg, ms, ev])
             m_cb += o[0]
             if o[1]:
@@ -414,6 +439,10 @@ class Runner:
             tags.append(o[3])
         self.mstate = ms
         self.nsteps += 1
+        if not tags:
+            tags = [13]                                  # nothing happens in the model (not running: stop / clock move)
+        if not self.running_step:
+            kind = kind + '@' + self.phase()
         key = (kind, tuple(tags), repr(before['local']), repr(mevents)[:400])
         ctx.case(key, tags[0] not in (0, 1, 2, 8, 13), {'cfg': self.cfg, 'kind': kind, 'event': self.log[-1] if self.log else None,
                                                        'local_before': before['local'], 'local_after': after['local']},
@@ -438,13 +467,42 @@ class Runner:
             if ncomp != 1 or not noresp:
                 self.disagree(kind, 'sync Interest name/flags', [1, True], [ncomp, noresp])
 
+    def phase(self):
+        return 'running' if self.running else 'after-stop' if self.ever_started else 'before-start'
 
-    def oracle(self, kind, before, after, cbs, emitted, raised, wire):
+    def once(self, site, cls, what):
+        if cls not in self.spec_bad:
+            self.spec_bad.add(cls)
+            self.violation(site, cls, what)
+
+    def oracle(self, kind, before, after, cbs, emitted, raised, wire, ret=None, mevents=()):
         ctx, env = self.ctx, self.env
         M = ctx.call
         lb, la = dict(before['local']), dict(after['local'])
         nb, na = norm(before['local']), norm(after['local'])
         sid = env.self_id
+        site = SITE_H if kind == 'recv' else SITE_P if kind == 'pub' else SITE_T
+        phase = self.phase() if not self.running_step else 'running'
+        # ---- the whole history (C18_local_history, C18_start): the local vector and the own sequence number are what
+        # Spec.spec_step computes from the constructor's number, the publications (in whatever phase of the life cycle) and the
+        # accepted vectors; start() makes the own entry the own sequence number.  Judged with the SPEC's own number, not with
+        # the number the implementation believes it has
+        if ['start'] in list(mevents):
+            self.spec = [M([12, self.spec[0], [(sid, self.spec[1])]]), self.spec[1]]
+        hev = [0, wire] if kind == 'recv' and wire is not None else [1] if kind == 'pub' else [2]
+        self.spec = M([16, sid, self.spec[0], self.spec[1], hev])
+        if after['seq'] != self.spec[1]:
+            self.once(site, 'history-own-seq', f"own sequence number is {after['seq']} after this {kind} step ({phase}); the "
+                      f"constructor's number plus the publications so far give {self.spec[1]}")
+        if na != norm(self.spec[0]):
+            self.once(site, 'history-local-vector', f'local vector is {na!r} after this {kind} step ({phase}); the accepted '
+                      f'vectors and publications of the history give {norm(self.spec[0])!r}')
+        for v, _, _ in emitted:
+            if not isinstance(v, list) or norm(v) != norm(self.spec[0]):
+                self.once(SITE_T, 'emit-not-history-vector', f'sync Interest carries {v!r}; the accepted vectors and '
+                          f'publications of the history give {norm(self.spec[0])!r}')
+        if not self.running_step and emitted:
+            self.violation(SITE_T, 'emit-while-not-running', f'{len(emitted)} sync Interest(s) emitted in a {kind} step {phase}')
         # monotone: no entry ever decreases (every kind of step)
         for k, v in lb.items():
             if la.get(k, 0) < v:
@@ -479,17 +537,24 @@ class Runner:
                 self.violation(SITE_H, 'callback-not-iff-raised',
                                f'on_missing_data called {cbs} time(s); some entry raised: {rose}')
         elif kind == 'pub':
-            if after['seq'] != before['seq'] + 1:
-                self.violation(SITE_P, 'publish-seq-not-plus-one', f"self_seq {before['seq']} -> {after['seq']}")
-            want = dict(lb)
-            want[sid] = before['seq'] + 1
-            if norm(want.items()) != na:
-                self.violation(SITE_P, 'publish-entry', f'local after publication {na!r}, expected {norm(want.items())!r}')
+            # C18_publish holds for every state -- constructed, running, stopped: Spec.spec_step ... HPublish on what was observed
+            want_vec, want_seq = M([16, sid, before['local'], before['seq'], [1]])
+            if after['seq'] != want_seq:
+                self.violation(SITE_P, 'publish-seq-not-plus-one', f"self_seq {before['seq']} -> {after['seq']} ({phase})")
+            if norm(want_vec) != na:
+                self.violation(SITE_P, 'publish-entry', f'local after publication {na!r}, expected {norm(want_vec)!r} ({phase})')
             if raised is not None:
-                self.violation(SITE_P, 'publish-raised-' + type(raised).__name__, f'new_data() raised {raised!r}')
-            if len(emitted) != 1:
+                self.violation(SITE_P, 'publish-raised-' + type(raised).__name__, f'new_data() raised {raised!r} ({phase})')
+            elif ret != want_seq:
+                self.violation(SITE_P, 'publish-returned-number', f"new_data() returned {ret!r}, the own sequence number was "
+                               f"{before['seq']} ({phase})")
+            if self.running_step and len(emitted) != 1:
                 self.violation(SITE_P, 'publish-no-prompt-sync-interest',
                                f'{len(emitted)} sync Interests emitted promptly after new_data()')
+        elif kind == 'fire' and self.announce_due and len(emitted) != 1:
+            # a publication made while the instance was not running is announced by the first timer run after start()
+            self.violation(SITE_T, 'publish-not-announced-after-start', f'{len(emitted)} sync Interests emitted by the first '
+                           f'timer run after start() although a publication was made while not running (local {na!r})')
         elif kind == 'fire' and not before['supp']:
             # C18_periodic: a timer expiry in the steady state emits (exactly one sync Interest, the full vector: above)
             if len(emitted) != 1:
@@ -511,11 +576,15 @@ class Runner:
         self.heard = r[0] if r else None
 
     # -- events ------------------------------------------------------------------------------------
-    def do(self, ev):
+    def do(self, ev, log=True):
         env = self.env
-        self.log.append(ev)
+        if log:
+            self.log.append(ev)
         now = env.now_tick()
+        self.running_step, self.announce_due = self.running, False
         if ev[0] == 'recv':
+            if not self.running:
+                return                                   # the handler is detached: nothing is delivered
             _, r, comps = ev
             env.rnd = r
             cls = env.classify(comps)
@@ -535,7 +604,34 @@ class Runner:
                        [[0, now, r, cls], [2, now, r]], wire=wire)
         elif ev[0] == 'pub':
             env.rnd = ev[1]
-            self.micro('pub', env.inst.new_data, [[1], [2, now, ev[1]]])
+            if self.running:
+                self.micro('pub', env.inst.new_data, [[1], [2, now, ev[1]]])
+            else:
+                self.ctx.stat('gen:publication-' + self.phase())
+                self.micro('pub', env.inst.new_data, [[1]])          # no timer task: the publication and nothing else
+                self.pending_pub = True
+        elif ev[0] == 'stop':
+            if not self.running:
+                return
+            self.ctx.stat('gen:stop')
+            self.micro('stop', env.inst.stop, [])
+            self.running = False
+        elif ev[0] == 'start':
+            if self.running:
+                return
+            env.rnd = ev[1]
+            self.ctx.stat('gen:start-' + self.phase() + ('-unannounced-publication' if self.pending_pub else ''))
+            # start() and the first run of the new timer task: it fires when the timer is due (always after a publication)
+            due = self.pending_pub or int(round(env.inst.next_sync_timing / TICK)) <= now
+            self.running_step, self.announce_due = True, self.pending_pub
+            self.micro('fire' if due else 'idle', env.start_inst, [['start'], [2, now, ev[1]]])
+            self.running, self.ever_started, self.pending_pub = True, True, False
+        elif ev[0] == 'adv' and not self.running:
+            target = now + ev[1]
+
+            def act():
+                env.loop._vt = target * TICK
+            self.micro('idle', act, [])
         elif ev[0] == 'adv':
             _, d, r = ev
             env.rnd = r
@@ -556,9 +652,11 @@ class Runner:
                     return
 
     def start(self):
-        """the first settle after start(): the timer task runs for the first time (next_sync_timing = 0.0)"""
-        self.env.rnd = self.cfg.get('r0', 0)
-        self.micro('fire', lambda: None, [[2, self.env.now_tick(), self.env.rnd]])
+        """cfg['k'] publications on the constructed instance, then start() and the first settle after it: the timer task
+        runs for the first time (next_sync_timing = 0.0).  None of these is part of the event list (the cfg says it all)."""
+        for _ in range(self.cfg['k']):
+            self.do(['pub', 0], log=False)
+        self.do(['start', self.cfg.get('r0', 0)], log=False)
 
     def close(self):
         self.env.close()
@@ -803,7 +901,7 @@ def gen_adv_fire(rng, rn):
 
 def gen_cfg(rng):
     return {'self': rng.choice(SELVES), 'I': rng.choice([1.25, 2.5, 5.0, 30.0]), 'S': rng.choice([0.25, 0.5, 1.0, 2.0]),
-            'last': rng.choice([0, 0, 1, 5, 5, 2 ** 32, 2 ** 63, 255, 65535, 2 ** 32 - 1]), 'k': rng.choice([0, 0, 0, 1, 2]),
+            'last': rng.choice([0, 0, 1, 5, 5, 7, 2 ** 32, 2 ** 63, 255, 65535, 2 ** 32 - 1]), 'k': rng.choice([0, 0, 0, 1, 2, 3]),
             'r0': rng.getrandbits(16)}
 
 
@@ -824,10 +922,87 @@ def random_history(ctx, rng, nev):
             elif c < 0.82:
                 rn.do(gen_adv(rng, rn))
                 n += 1
-            elif c < 0.97 or n + 20 > nev:
+            elif c < 0.95 or n + 20 > nev:
                 n += run_window(rng, rn)
+            elif c < 0.975:
+                n += run_restart(rng, rn)
             else:
                 n += run_shapes(rng, rn)
+    finally:
+        rn.close()
+    return rn
+
+
+# ---------------------------------------------------------------------------------------------------
+# life cycle: construct(last_used_seq_num), publish*, start, events*, (stop, (publish | clock)*, start, events*)*
+def honest_vector(rng, rn, raise_peer=True):
+    """a vector a peer that has heard everything would send: the own node at the number the HISTORY gives it (the constructor's
+    number + the publications so far -- not what the instance believes), the known peers as they are, one peer raised by one"""
+    env = rn.env
+    sid = env.self_id
+    loc = dict(rn.spec[0])
+    es = [(k, v) for k, v in loc.items() if k != sid and len(k) <= 24 and v]
+    if raise_peer:
+        x = rng.choice([n for n in NODES if n != sid])
+        es = [(k, v) for k, v in es if k != x] + [(x, min(MAXSEQ, loc.get(x, 0) + 1))]
+    if rn.spec[1]:
+        es.insert(rng.randint(0, len(es)), (sid, rn.spec[1]))
+    return es
+
+
+def run_restart(rng, rn, pubs=None):
+    """directed: stop(), 0..2 publications while stopped (clock moves in between), start() again, then an honest vector"""
+    n0 = len(rn.log)
+    rn.do(['stop'])
+    if rng.random() < 0.5:
+        rn.do(['adv', rng.choice([1, rn.Sup, rn.I, 3 * rn.I]), 0])
+    for _ in range(rng.choice([0, 1, 1, 2]) if pubs is None else pubs):
+        rn.do(['pub', rng.getrandbits(16)])
+        if rng.random() < 0.3:
+            rn.do(['adv', rng.choice([1, rn.Sup, rn.I]), 0])
+    rn.do(['start', rng.getrandbits(16)])
+    rn.do(['recv', rng.getrandbits(16), [mk_component(honest_vector(rng, rn)), DIGEST]])
+    return len(rn.log) - n0
+
+
+LIFE_LAST = [0, 1, 7, 255, 65535, 2 ** 32 - 1, 2 ** 32, 2 ** 63]
+LIFE_PRE = [0, 1, 2, 3]
+
+
+def lifecycle_history(ctx, rng, last, pre, variant):
+    """every initial sequence number x 0..3 publications before start(); then, running: the first timer run, an honest vector
+    (own node at the number it has really reached), a publication, a timer expiry; stop; 0..2 publications after stop(); start
+    again; honest vector, publication, expiry; a second stop / publication / start round.  Every publication, in whatever
+    phase, is judged by the publishing clause; every step by the history clause"""
+    cfg = {'self': SELVES[variant % len(SELVES)], 'I': rng.choice([1.25, 2.5, 5.0, 30.0]), 'S': rng.choice([0.25, 0.5, 1.0, 2.0]),
+           'last': last, 'k': pre, 'r0': rng.getrandbits(16)}
+    rn = Runner(ctx, cfg)
+    ctx.stat('gen:lifecycle-history')
+    hand = variant % 2 == 1
+
+    def vec(raise_peer=True):
+        es = honest_vector(rng, rn, raise_peer)
+        if not es:
+            es = [(NODES[3], 1)]
+        return ['recv', rng.getrandbits(16), [hand_component(es, rng) if hand else mk_component(es), DIGEST]]
+
+    def pub():
+        return ['pub', rng.getrandbits(16)]
+    try:
+        rn.start()
+        rn.do(vec())
+        rn.do(gen_adv_fire(rng, rn))
+        if variant % 3 != 2:
+            rn.do(pub())
+        rn.do(vec(raise_peer=False))
+        rn.do(gen_adv_fire(rng, rn))
+        run_restart(rng, rn, pubs=variant % 3)
+        rn.do(gen_adv_fire(rng, rn))
+        rn.do(pub())
+        rn.do(vec())
+        rn.do(gen_adv_fire(rng, rn))
+        run_restart(rng, rn, pubs=(variant + 1) % 3)
+        rn.do(gen_adv_fire(rng, rn))
     finally:
         rn.close()
     return rn
@@ -928,9 +1103,13 @@ def run(ctx):
         execute(ctx, cfg, evs)
     nhist = ctx.n(160, 6000)
     nwidth = ctx.n(2, 36)
-    plan = [('width', e, v) for e in WIDTH_EDGES for v in range(nwidth)] + [('random',)] * nhist
+    nlife = ctx.n(1, 6)
+    lasts = LIFE_LAST + [rng.randint(2, 2 ** 64 - 64) for _ in range(ctx.n(1, 4))]
+    plan = ([('life', a, b, v + b + i) for i, a in enumerate(lasts) for b in LIFE_PRE for v in range(nlife)] +
+            [('width', e, v) for e in WIDTH_EDGES for v in range(nwidth)] + [('random',)] * nhist)
     for h in plan:
-        rn = width_history(ctx, rng, h[1], h[2]) if h[0] == 'width' else random_history(ctx, rng, rng.randint(15, 60))
+        rn = (lifecycle_history(ctx, rng, h[1], h[2], h[3]) if h[0] == 'life' else
+              width_history(ctx, rng, h[1], h[2]) if h[0] == 'width' else random_history(ctx, rng, rng.randint(15, 60)))
         new = [f for f in dict.fromkeys(rn.found) if f not in seen]
         for f in new:
             seen.add(f)
@@ -940,7 +1119,7 @@ def run(ctx):
     for k, v in STATS.items():
         ctx.stat(k, v)
     STATS.clear()
-    ctx.extra['histories'] = nhist + 2 + len(WIDTH_EDGES) * nwidth
+    ctx.extra['histories'] = nhist + 2 + len(WIDTH_EDGES) * nwidth + len(lasts) * len(LIFE_PRE) * nlife
     ctx.extra['tick_seconds'] = TICK
 
 
